@@ -522,6 +522,10 @@ def run(ctx, rep):
                'data responses only after success of %s; empty responses only after it was consulted' % sorted({short(g.name) for g in gates}) if not bad else
                'a success response is sent without any authenticated/permission-checked operation having succeeded (gates seen: %s)' % sorted({short(g.name) for g in gates}))
 
+    # ------------------------------------------------------------ R09.m a refused request leaves no trace in the journal
+    from props.c05 import refused_requests_leave_no_journal_entry
+    refused_requests_leave_no_journal_entry(ctx, rep, 'R09.m')
+
 
 def _returns_nothing(body, bb):
     """the Ok value written at bb carries no entity (Ok(None) / Ok(()) / Ok(vec![]))"""
